@@ -2,18 +2,35 @@
 //!   `<kind> op*`   with ops
 //!     new n <item> | slice k <item>*k | iter k <item>*k | set i <item> | mod l r <modifier>
 //!     | ask l r | lb l <pred> | lbr r <pred> | dbg
+//!     | raw n <item>            Segtree::new_raw(n, item) (every node = item, nothing rebuilt)
+//!     | lbp l k <pred> | lbrp r k <pred>
+//!                               the search is first run with a closure that panics on its k-th call (caught),
+//!                               then run again, uninterrupted, with the plain predicate: the chunk printed is
+//!                               that of the second run (a search never changes the logical array and pushing
+//!                               twice equals pushing once, so it must equal the chunk of `lb` / `lbr`)
 //!   items:      integer (built-ins, Combinator via From<i64>, Affine) / string token (Concat, `_` = empty)
 //!               / `v:md` (MinAdd, MaxAdd, SumAdd, the Combinators: the item carries the pending lazy tag `md`
 //!               in every component; Flip: `bit:flag`, flag 0|1 = its pending-flip flag)
+//!               / `key/id` (the kinds over Keyed and over f64: f64 value = key, id 1 = the zero is -0.0;
+//!               MinAdd/MaxAdd<Keyed>: `key/id:md`) / `v:md:len` (SumAdd and the SumAdd component of comb3: weighted leaf)
 //!   modifiers:  integer (ignored for the kinds with M = (), Flip included) / `as s` | `ap s` (Concat) / `a b` (Affine)
 //!   predicates: T | F | ge k | le k | fst <pred> | snd <pred> | np s | lenge k
 //! Output: one chunk per op, chunks separated by TAB:
 //!   `u` (returned unit) | `p` (panicked) | `i <item>` | `d <debug() string>` |
 //!   `b <index or -> <item>*` (the items are the arguments the closure received, in order)
 //! Items are printed with every field (lazy tags included).
+//! Self-checks (a failure prints a chunk the plugin cannot read as the expected observation):
+//!   * `dbg`: after debug() (which leaves every inner node pushed) every range [l, r] (all of them up to n = 48,
+//!     a grid above) is asked again and compared, field by field, with the left-to-right fold of `T::merge`
+//!     over the single-element answers: `d FOLD-MISMATCH ...`;
+//!   * `Concat::push` panics unless, after handing its tag down, its own parts are exactly the left child's
+//!     parts followed by the right child's; `Concat::update` is overridden (rebuilds in place).
+//!   * `iter k`: the iterator handed to from_iter is `Vec::into_iter()`, a lazy `.iter().cloned().map(..)`
+//!     or a `.rev()` of the reversed vector, by k mod 3.
 use rlib_segtree::segtree_items::{Combinator, Max, MaxAdd, Min, MinAdd, Sum, SumAdd};
+use rlib_num_traits::MinMax;
 use rlib_segtree::{Segtree, SegtreeItem};
-use std::cell::RefCell;
+use std::cell::{Cell, RefCell};
 use std::fmt::Debug;
 
 #[derive(Clone, Debug)]
@@ -53,6 +70,31 @@ impl<'a> Toks<'a> {
         match s.split_once(':') {
             Some((v, md)) => (vh::p(v), vh::p(md)),
             None => (vh::p(s), 0),
+        }
+    }
+    /// `v`, `v:md` or `v:md:len`
+    fn int_md_len(&mut self) -> (i64, i64, Option<i64>) {
+        let s = self.next();
+        let f: Vec<&str> = s.split(':').collect();
+        match f.len() {
+            1 => (vh::p(f[0]), 0, None),
+            2 => (vh::p(f[0]), vh::p(f[1]), None),
+            _ => (vh::p(f[0]), vh::p(f[1]), Some(vh::p(f[2]))),
+        }
+    }
+    /// `key/id` or `key/id:md`
+    fn keyed_md(&mut self) -> (Keyed, i64) {
+        let s = self.next();
+        let (kv, md) = match s.split_once(':') {
+            Some((kv, md)) => (kv, vh::p(md)),
+            None => (s, 0),
+        };
+        match kv.split_once('/') {
+            Some((k, i)) => (Keyed { key: vh::p(k), id: vh::p(i) }, md),
+            None => {
+                eprintln!("harness: bad keyed token {}", s);
+                std::process::exit(3)
+            }
         }
     }
     fn string(&mut self) -> String {
@@ -106,7 +148,12 @@ trait Kind: Sized + Clone + Default + Debug {
 impl Kind for Min<i64> {
     type M = ();
     fn item(t: &mut Toks) -> Self {
-        Min::new(t.int())
+        let v: i64 = t.int();
+        if v & 1 == 0 {
+            Min::new(v)
+        } else {
+            Min::from(v)
+        }
     }
     fn modifier(t: &mut Toks) -> () {
         let _: i64 = t.int();
@@ -121,7 +168,12 @@ impl Kind for Min<i64> {
 impl Kind for Max<i64> {
     type M = ();
     fn item(t: &mut Toks) -> Self {
-        Max::new(t.int())
+        let v: i64 = t.int();
+        if v & 1 == 0 {
+            Max::new(v)
+        } else {
+            Max::from(v)
+        }
     }
     fn modifier(t: &mut Toks) -> () {
         let _: i64 = t.int();
@@ -136,7 +188,12 @@ impl Kind for Max<i64> {
 impl Kind for Sum<i64> {
     type M = ();
     fn item(t: &mut Toks) -> Self {
-        Sum::new(t.int())
+        let v: i64 = t.int();
+        if v & 1 == 0 {
+            Sum::new(v)
+        } else {
+            Sum::from(v)
+        }
     }
     fn modifier(t: &mut Toks) -> () {
         let _: i64 = t.int();
@@ -187,9 +244,12 @@ impl Kind for MaxAdd<i64> {
 impl Kind for SumAdd<i64> {
     type M = i64;
     fn item(t: &mut Toks) -> Self {
-        let (v, md) = t.int_md();
+        let (v, md, len) = t.int_md_len();
         let mut x = SumAdd::new(v);
         x.md = md;
+        if let Some(l) = len {
+            x.len = l;
+        }
         x
     }
     fn modifier(t: &mut Toks) -> i64 {
@@ -238,11 +298,14 @@ impl Kind for C2 {
 impl Kind for C3 {
     type M = i64;
     fn item(t: &mut Toks) -> Self {
-        let (v, md) = t.int_md();
+        let (v, md, len) = t.int_md_len();
         let mut x = C3::from(v);
         (x.0).0.md = md;
         (x.0).1.md = md;
         x.1.md = md;
+        if let Some(l) = len {
+            x.1.len = l;
+        }
         x
     }
     fn modifier(t: &mut Toks) -> i64 {
@@ -257,6 +320,307 @@ impl Kind for C3 {
             Pred::False => false,
             Pred::Fst(q) => <C2 as Kind>::eval(q, &x.0),
             Pred::Snd(q) => <SumAdd<i64> as Kind>::eval(q, &x.1),
+            _ => false,
+        }
+    }
+}
+
+
+// ---------------------------------------------------------------- other integer widths of the built-ins
+/// MinAdd<i32> (the README's width), SumAdd<u64>, Min<u64>, Max<u64>: same observations as the i64 kinds
+impl Kind for MinAdd<i32> {
+    type M = i32;
+    fn item(t: &mut Toks) -> Self {
+        let (v, md) = t.int_md();
+        let mut x = MinAdd::from(v as i32);
+        x.md = md as i32;
+        x
+    }
+    fn modifier(t: &mut Toks) -> i32 {
+        t.int()
+    }
+    fn enc(&self) -> String {
+        format!("{},{}", self.v, self.md)
+    }
+    fn eval(p: &Pred, x: &Self) -> bool {
+        eval_z(p, x.v as i64)
+    }
+}
+impl Kind for SumAdd<u64> {
+    type M = u64;
+    fn item(t: &mut Toks) -> Self {
+        let (v, md, len) = t.int_md_len();
+        let mut x = SumAdd::from(v as u64);
+        x.md = md as u64;
+        if let Some(l) = len {
+            x.len = l as u64;
+        }
+        x
+    }
+    fn modifier(t: &mut Toks) -> u64 {
+        t.int()
+    }
+    fn enc(&self) -> String {
+        format!("{},{},{}", self.v, self.len, self.md)
+    }
+    fn eval(p: &Pred, x: &Self) -> bool {
+        match p {
+            Pred::True => true,
+            Pred::False => false,
+            Pred::Fst(q) => eval_z(q, x.v as i64),
+            Pred::Snd(q) => eval_z(q, x.len as i64),
+            _ => false,
+        }
+    }
+}
+
+/// Min<u64> / Max<u64>: the input integer x (any i64) stands for the u64 value x + 2^63 (top bit flipped: an
+/// order isomorphism i64 -> u64), printed back the same way; u64::MAX and 0 (the Default values) correspond to
+/// i64::MAX and i64::MIN, so the observations equal those of Min<i64> / Max<i64>.
+const TOP: u64 = 1 << 63;
+impl Kind for Min<u64> {
+    type M = ();
+    fn item(t: &mut Toks) -> Self {
+        let v: i64 = t.int();
+        Min::from((v as u64) ^ TOP)
+    }
+    fn modifier(t: &mut Toks) -> () {
+        let _: i64 = t.int();
+    }
+    fn enc(&self) -> String {
+        format!("{}", (self.v ^ TOP) as i64)
+    }
+    fn eval(p: &Pred, x: &Self) -> bool {
+        eval_z(p, (x.v ^ TOP) as i64)
+    }
+}
+impl Kind for Max<u64> {
+    type M = ();
+    fn item(t: &mut Toks) -> Self {
+        let v: i64 = t.int();
+        Max::new((v as u64) ^ TOP)
+    }
+    fn modifier(t: &mut Toks) -> () {
+        let _: i64 = t.int();
+    }
+    fn enc(&self) -> String {
+        format!("{}", (self.v ^ TOP) as i64)
+    }
+    fn eval(p: &Pred, x: &Self) -> bool {
+        eval_z(p, (x.v ^ TOP) as i64)
+    }
+}
+
+// ---------------------------------------------------------------- element type with distinguishable ties
+/// Ordered and compared by `key` only; `+=` adds the keys and keeps the id of the left operand.
+/// Two elements with the same key compare equal and are still told apart by `id`, so which operand
+/// a merge (or an `update` override) keeps on a tie shows in every printed item.
+#[derive(Clone, Copy, Debug, Default)]
+struct Keyed {
+    key: i64,
+    id: i64,
+}
+impl PartialEq for Keyed {
+    fn eq(&self, o: &Self) -> bool {
+        self.key == o.key
+    }
+}
+impl PartialOrd for Keyed {
+    fn partial_cmp(&self, o: &Self) -> Option<std::cmp::Ordering> {
+        self.key.partial_cmp(&o.key)
+    }
+}
+impl std::ops::AddAssign for Keyed {
+    fn add_assign(&mut self, o: Keyed) {
+        self.key += o.key;
+    }
+}
+impl MinMax for Keyed {
+    const MIN: Keyed = Keyed { key: i64::MIN, id: -1 };
+    const MAX: Keyed = Keyed { key: i64::MAX, id: -1 };
+}
+fn eval_kz(p: &Pred, key: i64, id: i64) -> bool {
+    match p {
+        Pred::True => true,
+        Pred::False => false,
+        Pred::Fst(q) => eval_z(q, key),
+        Pred::Snd(q) => eval_z(q, id),
+        _ => false,
+    }
+}
+impl Kind for Min<Keyed> {
+    type M = ();
+    fn item(t: &mut Toks) -> Self {
+        let (k, _) = t.keyed_md();
+        if k.id & 1 == 0 {
+            Min::new(k)
+        } else {
+            Min::from(k)
+        }
+    }
+    fn modifier(t: &mut Toks) -> () {
+        let _: i64 = t.int();
+    }
+    fn enc(&self) -> String {
+        format!("{},{}", self.v.key, self.v.id)
+    }
+    fn eval(p: &Pred, x: &Self) -> bool {
+        eval_kz(p, x.v.key, x.v.id)
+    }
+}
+impl Kind for Max<Keyed> {
+    type M = ();
+    fn item(t: &mut Toks) -> Self {
+        let (k, _) = t.keyed_md();
+        if k.id & 1 == 0 {
+            Max::new(k)
+        } else {
+            Max::from(k)
+        }
+    }
+    fn modifier(t: &mut Toks) -> () {
+        let _: i64 = t.int();
+    }
+    fn enc(&self) -> String {
+        format!("{},{}", self.v.key, self.v.id)
+    }
+    fn eval(p: &Pred, x: &Self) -> bool {
+        eval_kz(p, x.v.key, x.v.id)
+    }
+}
+impl Kind for MinAdd<Keyed> {
+    type M = Keyed;
+    fn item(t: &mut Toks) -> Self {
+        let (k, md) = t.keyed_md();
+        let mut x = MinAdd::new(k);
+        x.md.key = md;
+        x
+    }
+    fn modifier(t: &mut Toks) -> Keyed {
+        Keyed { key: t.int(), id: 0 }
+    }
+    fn enc(&self) -> String {
+        format!("{},{},{},{}", self.v.key, self.v.id, self.md.key, self.md.id)
+    }
+    fn eval(p: &Pred, x: &Self) -> bool {
+        eval_kz(p, x.v.key, x.v.id)
+    }
+}
+impl Kind for MaxAdd<Keyed> {
+    type M = Keyed;
+    fn item(t: &mut Toks) -> Self {
+        let (k, md) = t.keyed_md();
+        let mut x = MaxAdd::new(k);
+        x.md.key = md;
+        x
+    }
+    fn modifier(t: &mut Toks) -> Keyed {
+        Keyed { key: t.int(), id: 0 }
+    }
+    fn enc(&self) -> String {
+        format!("{},{},{},{}", self.v.key, self.v.id, self.md.key, self.md.id)
+    }
+    fn eval(p: &Pred, x: &Self) -> bool {
+        eval_kz(p, x.v.key, x.v.id)
+    }
+}
+
+// ---------------------------------------------------------------- Min / Max over f64: the two zeros
+/// token `key/id`: the value `key` (an integer), or -0.0 for `0/1`
+fn f64_of(k: Keyed) -> f64 {
+    if k.key == 0 && k.id == 1 {
+        -0.0
+    } else {
+        k.key as f64
+    }
+}
+/// `key,id`; anything that is not an integral value below 2^50 or one of the zeros prints as `X`
+fn enc_f64(x: f64) -> String {
+    if x == 0.0 {
+        format!("0,{}", x.to_bits() >> 63)
+    } else if x.fract() == 0.0 && x.abs() < 1.0e15 {
+        format!("{},0", x as i64)
+    } else {
+        "X".to_string()
+    }
+}
+fn eval_f64(p: &Pred, x: f64) -> bool {
+    if x == 0.0 {
+        eval_kz(p, 0, (x.to_bits() >> 63) as i64)
+    } else {
+        eval_kz(p, x as i64, 0)
+    }
+}
+impl Kind for Min<f64> {
+    type M = ();
+    fn item(t: &mut Toks) -> Self {
+        let (k, _) = t.keyed_md();
+        Min::new(f64_of(k))
+    }
+    fn modifier(t: &mut Toks) -> () {
+        let _: i64 = t.int();
+    }
+    fn enc(&self) -> String {
+        enc_f64(self.v)
+    }
+    fn eval(p: &Pred, x: &Self) -> bool {
+        eval_f64(p, x.v)
+    }
+}
+impl Kind for Max<f64> {
+    type M = ();
+    fn item(t: &mut Toks) -> Self {
+        let (k, _) = t.keyed_md();
+        Max::from(f64_of(k))
+    }
+    fn modifier(t: &mut Toks) -> () {
+        let _: i64 = t.int();
+    }
+    fn enc(&self) -> String {
+        enc_f64(self.v)
+    }
+    fn eval(p: &Pred, x: &Self) -> bool {
+        eval_f64(p, x.v)
+    }
+}
+
+// ---------------------------------------------------------------- Sum over a non-commutative `+`
+/// a string whose `+` is concatenation
+#[derive(Clone, Default)]
+struct Cat(String);
+impl std::ops::Add for Cat {
+    type Output = Cat;
+    fn add(self, o: Cat) -> Cat {
+        Cat(self.0 + &o.0)
+    }
+}
+impl Debug for Cat {
+    fn fmt(&self, f: &mut std::fmt::Formatter<'_>) -> std::fmt::Result {
+        write!(f, "{}", enc_str(&self.0))
+    }
+}
+impl Kind for Sum<Cat> {
+    type M = ();
+    fn item(t: &mut Toks) -> Self {
+        let s = t.string();
+        if s.len() & 1 == 0 {
+            Sum::new(Cat(s))
+        } else {
+            Sum::from(Cat(s))
+        }
+    }
+    fn modifier(t: &mut Toks) -> () {
+        let _: i64 = t.int();
+    }
+    fn enc(&self) -> String {
+        enc_str(&self.v.0)
+    }
+    fn eval(p: &Pred, x: &Self) -> bool {
+        match p {
+            Pred::True => true,
+            Pred::False => false,
+            Pred::NotPrefix(w) => !w.starts_with(&x.v.0),
+            Pred::LenGe(k) => x.v.0.len() as i64 >= *k,
             _ => false,
         }
     }
@@ -308,10 +672,21 @@ impl SegtreeItem<CMod> for Concat {
             (CMod::Append(s), Some(CMod::Append(a))) => CMod::Append(a + s),
         });
     }
+    /// the only item here that overrides `update`: rebuilds in place, same result as `merge`
+    fn update(&mut self, left: &Self, right: &Self) {
+        self.parts.clear();
+        self.parts.extend(left.parts.iter().cloned());
+        self.parts.extend(right.parts.iter().cloned());
+        self.tag = None;
+    }
     fn push(&mut self, left: &mut Self, right: &mut Self) {
         if let Some(t) = self.tag.take() {
             left.modify(&t);
             right.modify(&t);
+        }
+        // canary: `left` / `right` really are this node's left / right child, in this order
+        if !self.parts.iter().eq(left.parts.iter().chain(right.parts.iter())) {
+            panic!("Concat::push: children do not spell the parent");
         }
     }
 }
@@ -471,10 +846,130 @@ impl Kind for Flip {
     }
 }
 
+
+// ---------------------------------------------------------------- more Combinators
+/// both components non-commutative and lazy; the second component holds the rotated string (a->b->c->a)
+type CCat = Combinator<Concat, Concat>;
+fn rot(s: &str) -> String {
+    s.chars()
+        .map(|c| match c {
+            'a' => 'b',
+            'b' => 'c',
+            'c' => 'a',
+            o => o,
+        })
+        .collect()
+}
+impl Kind for CCat {
+    type M = CMod;
+    fn item(t: &mut Toks) -> Self {
+        let s = t.string();
+        let r = rot(&s);
+        Combinator(Concat { parts: vec![s], tag: None }, Concat { parts: vec![r], tag: None })
+    }
+    fn modifier(t: &mut Toks) -> CMod {
+        <Concat as Kind>::modifier(t)
+    }
+    fn enc(&self) -> String {
+        format!("{},{}", self.0.enc(), self.1.enc())
+    }
+    fn eval(p: &Pred, x: &Self) -> bool {
+        match p {
+            Pred::True => true,
+            Pred::False => false,
+            Pred::Fst(q) => <Concat as Kind>::eval(q, &x.0),
+            Pred::Snd(q) => <Concat as Kind>::eval(q, &x.1),
+            _ => false,
+        }
+    }
+}
+/// right-nested, modifier type (), built with From
+type CU = Combinator<Min<i64>, Combinator<Max<i64>, Sum<i64>>>;
+impl Kind for CU {
+    type M = ();
+    fn item(t: &mut Toks) -> Self {
+        let v: i64 = t.int();
+        CU::from(v)
+    }
+    fn modifier(t: &mut Toks) -> () {
+        let _: i64 = t.int();
+    }
+    fn enc(&self) -> String {
+        format!("{},{},{}", self.0.v, (self.1).0.v, (self.1).1.v)
+    }
+    fn eval(p: &Pred, x: &Self) -> bool {
+        match p {
+            Pred::True => true,
+            Pred::False => false,
+            Pred::Fst(q) => eval_z(q, x.0.v),
+            Pred::Snd(q) => match &**q {
+                Pred::True => true,
+                Pred::False => false,
+                Pred::Fst(r) => eval_z(r, (x.1).0.v),
+                Pred::Snd(r) => eval_z(r, (x.1).1.v),
+                _ => false,
+            },
+            _ => false,
+        }
+    }
+}
+/// a lazy and a non-lazy component under the modifier type (): the flips reach the first component only
+type CFl = Combinator<Flip, Sum<i64>>;
+impl Kind for CFl {
+    type M = ();
+    fn item(t: &mut Toks) -> Self {
+        let (b, fl) = t.int_md();
+        Combinator(Flip { ones: b, len: 1, flip: fl != 0 }, Sum::from(b))
+    }
+    fn modifier(t: &mut Toks) -> () {
+        let _: i64 = t.int();
+    }
+    fn enc(&self) -> String {
+        format!("{},{}", self.0.enc(), self.1.v)
+    }
+    fn eval(p: &Pred, x: &Self) -> bool {
+        match p {
+            Pred::True => true,
+            Pred::False => false,
+            Pred::Fst(q) => <Flip as Kind>::eval(q, &x.0),
+            Pred::Snd(q) => eval_z(q, x.1.v),
+            _ => false,
+        }
+    }
+}
+
 // ---------------------------------------------------------------- the history runner
 fn items<T: Kind>(t: &mut Toks) -> Vec<T> {
     let k: usize = t.int();
     (0..k).map(|_| T::item(t)).collect()
+}
+
+/// After debug() every inner node has been pushed, so further queries change nothing.  Every range is
+/// asked again and compared (all fields) with the left-to-right fold of `T::merge` over the single-element
+/// answers: the values stored in inner nodes (written by `update`) must agree with query-time `merge`.
+fn fold_check<T>(s: &mut Segtree<T, T::M>, n: usize) -> Option<String>
+where
+    T: Kind + SegtreeItem<<T as Kind>::M>,
+{
+    let leaves: Vec<T> = (0..n).map(|i| s.ask(i, i)).collect();
+    let step = if n <= 48 { 1 } else { n / 24 };
+    let mut l = 0;
+    while l < n {
+        let mut acc = leaves[l].clone();
+        for r in l..n {
+            if r > l {
+                acc = T::merge(&acc, &leaves[r]);
+            }
+            if step == 1 || r % step == step - 1 || r == n - 1 || r == l {
+                let got = s.ask(l, r);
+                if got.enc() != acc.enc() {
+                    return Some(format!("FOLD-MISMATCH {} {} ask={} fold={}", l, r, got.enc(), acc.enc()));
+                }
+            }
+        }
+        l += step;
+    }
+    None
 }
 
 fn run<T>(t: &mut Toks) -> String
@@ -482,6 +977,7 @@ where
     T: Kind + SegtreeItem<<T as Kind>::M>,
 {
     let mut tree: Option<Segtree<T, T::M>> = None;
+    let mut size: usize = 0;
     let mut out: Vec<String> = Vec::new();
     while !t.done() {
         let op = t.next();
@@ -491,20 +987,43 @@ where
                 let v = T::item(t);
                 vh::guarded(|| Segtree::new(n, v)).map(|s| {
                     tree = Some(s);
+                    size = n;
+                    "u".to_string()
+                })
+            }
+            "raw" => {
+                let n: usize = t.int();
+                let v = T::item(t);
+                vh::guarded(|| Segtree::new_raw(n, v)).map(|s| {
+                    tree = Some(s);
+                    size = n;
                     "u".to_string()
                 })
             }
             "slice" => {
                 let xs: Vec<T> = items(t);
+                let k = xs.len();
                 vh::guarded(|| Segtree::from_slice(&xs)).map(|s| {
                     tree = Some(s);
+                    size = k;
                     "u".to_string()
                 })
             }
             "iter" => {
                 let xs: Vec<T> = items(t);
-                vh::guarded(|| Segtree::from_iter(xs.into_iter())).map(|s| {
+                let k = xs.len();
+                vh::guarded(|| match k % 3 {
+                    0 => Segtree::from_iter(xs.into_iter()),
+                    1 => Segtree::from_iter(xs.iter().cloned().map(|x| x)),
+                    _ => {
+                        let mut ys = xs.clone();
+                        ys.reverse();
+                        Segtree::from_iter(ys.into_iter().rev())
+                    }
+                })
+                .map(|s| {
                     tree = Some(s);
+                    size = k;
                     "u".to_string()
                 })
             }
@@ -533,18 +1052,32 @@ where
                     Some(s) => vh::guarded(|| s.ask(l, r)).map(|x| format!("i {}", x.enc())),
                 }
             }
-            "lb" | "lbr" => {
+            "lb" | "lbr" | "lbp" | "lbrp" => {
+                let fwd = op == "lb" || op == "lbp";
                 let pos: usize = t.int();
+                let kth: usize = if op == "lbp" || op == "lbrp" { t.int() } else { 0 };
                 let p = t.pred();
                 match tree.as_mut() {
                     None => None,
                     Some(s) => {
+                        if kth > 0 {
+                            // the predicate panics on its kth call; the panic is caught, the tree must stay usable
+                            let calls = Cell::new(0usize);
+                            let f1 = |x: &T| {
+                                calls.set(calls.get() + 1);
+                                if calls.get() == kth {
+                                    panic!("predicate");
+                                }
+                                T::eval(&p, x)
+                            };
+                            let _ = vh::guarded(|| if fwd { s.lower_bound(pos, f1) } else { s.lower_bound_rev(pos, f1) });
+                        }
                         let seen: RefCell<Vec<T>> = RefCell::new(Vec::new());
                         let f = |x: &T| {
                             seen.borrow_mut().push(x.clone());
                             T::eval(&p, x)
                         };
-                        let res = vh::guarded(|| if op == "lb" { s.lower_bound(pos, f) } else { s.lower_bound_rev(pos, f) });
+                        let res = vh::guarded(|| if fwd { s.lower_bound(pos, f) } else { s.lower_bound_rev(pos, f) });
                         res.map(|r| {
                             let mut c = match r {
                                 Some(k) => format!("b {}", k),
@@ -561,7 +1094,14 @@ where
             }
             "dbg" => match tree.as_mut() {
                 None => None,
-                Some(s) => vh::guarded(|| s.debug()).map(|d| format!("d {}", d)),
+                Some(s) => vh::guarded(|| {
+                    let d = s.debug();
+                    match fold_check(s, size) {
+                        None => d,
+                        Some(bad) => bad,
+                    }
+                })
+                .map(|d| format!("d {}", d)),
             },
             other => {
                 eprintln!("harness: unknown op {}", other);
@@ -588,6 +1128,20 @@ fn main() {
             "concat" => run::<Concat>(&mut t),
             "affine" => run::<Affine>(&mut t),
             "flip" => run::<Flip>(&mut t),
+            "minadd32" => run::<MinAdd<i32>>(&mut t),
+            "sumaddu64" => run::<SumAdd<u64>>(&mut t),
+            "minu64" => run::<Min<u64>>(&mut t),
+            "maxu64" => run::<Max<u64>>(&mut t),
+            "minkey" => run::<Min<Keyed>>(&mut t),
+            "maxkey" => run::<Max<Keyed>>(&mut t),
+            "minaddkey" => run::<MinAdd<Keyed>>(&mut t),
+            "maxaddkey" => run::<MaxAdd<Keyed>>(&mut t),
+            "minf" => run::<Min<f64>>(&mut t),
+            "maxf" => run::<Max<f64>>(&mut t),
+            "sumcat" => run::<Sum<Cat>>(&mut t),
+            "combcat" => run::<CCat>(&mut t),
+            "combunit" => run::<CU>(&mut t),
+            "combflip" => run::<CFl>(&mut t),
             other => {
                 eprintln!("harness: unknown kind {}", other);
                 std::process::exit(3)
